@@ -234,7 +234,7 @@ func verifC19RawCall(ctx context.Context, req *conformancev1.ClientCompatRequest
 // receiver got (side 1: the reference client's payloads; full duplex: the server answers each
 // request before it reads the next), else -2.
 func verifC19Stream(args []vsx) vsx {
-	if len(args) != 8 || args[1].k != 'l' || len(args[1].l) < 2 || len(args[1].l) > 16 {
+	if len(args) != 8 && len(args) != 10 || args[1].k != 'l' || len(args[1].l) < 2 || len(args[1].l) > 16 {
 		return vErr("bad-case")
 	}
 	for i, a := range args {
@@ -254,6 +254,20 @@ func verifC19Stream(args []vsx) vsx {
 	protocol := conformancev1.Protocol(args[4].i)
 	compress := conformancev1.Compression(args[5].i)
 	streamType := conformancev1.StreamType(args[6].i)
+	// optional: codec (side 1: the codec of the RPC; the response messages are sized in its encoding) and
+	// def (side 0, client stream: 1 = the response definition in the first request asks for an ERROR response)
+	codec, errorDef := conformancev1.Codec_CODEC_PROTO, false
+	const definedCode = conformancev1.Code_CODE_ABORTED
+	if len(args) == 10 {
+		codec, errorDef = conformancev1.Codec(args[8].i), args[9].i == 1
+		if codec != conformancev1.Codec_CODEC_PROTO && codec != conformancev1.Codec_CODEC_JSON || args[9].i < 0 || args[9].i > 1 ||
+			codec != conformancev1.Codec_CODEC_PROTO && args[0].i != 1 ||
+			// the error response echoes every request in its details (some 1.3 x their size in the end-of-stream
+			// message), which the reference client would measure against its own limit: plain HTTP senders only
+			errorDef && (args[0].i != 0 || streamType != conformancev1.StreamType_STREAM_TYPE_CLIENT_STREAM || args[2].i == 0) {
+			return vErr("bad-case")
+		}
+	}
 	const (
 		clientStream = conformancev1.StreamType_STREAM_TYPE_CLIENT_STREAM
 		serverStream = conformancev1.StreamType_STREAM_TYPE_SERVER_STREAM
@@ -331,6 +345,11 @@ func verifC19Stream(args []vsx) vsx {
 					csr.ResponseDefinition = &conformancev1.UnaryResponseDefinition{
 						Response: &conformancev1.UnaryResponseDefinition_ResponseData{ResponseData: small},
 					}
+					if errorDef {
+						csr.ResponseDefinition.Response = &conformancev1.UnaryResponseDefinition_Error{
+							Error: &conformancev1.Error{Code: definedCode, Message: proto.String("as asked")},
+						}
+					}
 				}
 				msg = csr
 			} else {
@@ -365,9 +384,9 @@ func verifC19Stream(args []vsx) vsx {
 			wrap = verifC19WrapStream
 		}
 		for i, off := range offs {
-			specs[i] = verifC19Spec(limit+off, fill)
+			specs[i] = verifC19Spec(limit+off, fill, codec)
 			payload := verifC19SizedPayload(specs[i], wrap)
-			if payload == nil || int64(proto.Size(wrap(payload))) != limit+off {
+			if payload == nil || int64(verifC19EncSize(codec, wrap(payload))) != limit+off {
 				return vErr("response-size-unreachable")
 			}
 			sizes[i] = limit + off
@@ -390,9 +409,14 @@ func verifC19Stream(args []vsx) vsx {
 		return vErr("server-start")
 	}
 	verifC19Address(req, server, httpVersion, protocol, compress, method, streamType)
+	if codec != conformancev1.Codec_CODEC_PROTO {
+		verifC19SetCodec(req, codec)
+	}
 
 	var accepted bool
 	var payloads int
+	// outcome of the RPC: 0 = normal response, 1 = the error the response definition asks for, 2 = resource_exhausted
+	outcome := int64(2)
 	if sender == 0 {
 		resp, err := verifC19.call(req)
 		if err != nil {
@@ -407,12 +431,15 @@ func verifC19Stream(args []vsx) vsx {
 		result := resp.GetResponse()
 		payloads = len(result.Payloads)
 		switch {
+		case errorDef && result.GetError().GetCode() == definedCode:
+			// every message was received: the server got as far as answering what the definition asks for
+			accepted, outcome, wantPayloads = true, 1, 0
 		case result.GetError() == nil:
-			accepted = true
+			accepted, outcome = true, 0
 			if side == 1 {
 				// every sized message must have arrived whole
 				for i, payload := range result.Payloads {
-					if i < count && int64(proto.Size(wrap(payload))) != sizes[i] {
+					if i < count && int64(verifC19EncSize(codec, wrap(payload))) != sizes[i] {
 						return vErr("response-size-differs")
 					}
 				}
@@ -436,8 +463,13 @@ func verifC19Stream(args []vsx) vsx {
 		}
 		payloads = n
 		switch code {
+		case "aborted", "10":
+			if !errorDef {
+				return vErr("code-" + code)
+			}
+			accepted, outcome, wantPayloads = true, 1, 0
 		case "":
-			accepted = true
+			accepted, outcome = true, 0
 		case "resource_exhausted", "8":
 			if os.Getenv("VERIF_DEBUG") != "" {
 				fmt.Fprintf(os.Stderr, "verif: %s: raw call rejected after %d responses\n", req.TestName, n)
@@ -458,6 +490,9 @@ func verifC19Stream(args []vsx) vsx {
 	sizeList := make([]vsx, count)
 	for i, size := range sizes {
 		sizeList[i] = vI(size)
+	}
+	if len(args) == 10 {
+		return vL(vI(limit), vL(sizeList...), vBool(accepted), vI(progress), vI(outcome))
 	}
 	return vL(vI(limit), vL(sizeList...), vBool(accepted), vI(progress))
 }
